@@ -46,16 +46,6 @@ contract(MS_, "Shard.write", props=["C10", "C18", "C04"],
         ("C18", "implies(self._shard_writer is not None, self._shard_writer.nrec == old(self._shard_writer.nrec))"),
     ]})
 
-# abstract writer (each concrete writer is verified against this in c50_writers)
-contract("sedpack/io/shard/shard_writer_base.py", "ShardWriterBase.write",
-    props=["C18", "C10", "C04"], cls="Writer", params={"values": "U"},
-    modifies=["Writer.nrec@self"],
-    requires=["not self.closed"],
-    ensures=["self.nrec == old(self.nrec) + 1"],
-    raises={"Exception": ["self.nrec == old(self.nrec)"]},
-    verify=False, assumed=True,
-    note="abstract view of the three writers; the concrete _write functions are under contract in c50_writers.py")
-
 # ---- filler context -----------------------------------------------------------
 contract(MF, CTX + "._get_new_shard", props=["C10", "C11", "C18"],
     params={"split": "U"}, returns="ref:Shard",
